@@ -189,6 +189,7 @@ def _check_axes(fr, n, m, asc, V, tag=''):
               % (name, gq[:4].tolist(), n // 2, gs))
             break
     # what the derived-quantity accessors hand out is the caller's to scribble on: the frame's own axes stay what they were
+    ts_c, fs_c = np.array(fr.ts, copy=True), np.array(fr.fs, copy=True)
     try:
         te2 = fr.ts_ext
         if isinstance(te2, np.ndarray) and te2.flags.writeable:
@@ -198,7 +199,7 @@ def _check_axes(fr, n, m, asc, V, tag=''):
             gf2 -= 777.0
     except Exception:
         pass
-    if not (np.array_equal(np.asarray(fr.ts), ts) and np.array_equal(np.asarray(fr.fs), fs) and np.array_equal(np.asarray(fr.ts_ext)[:m], ts)):
+    if not (np.array_equal(np.asarray(fr.ts), ts_c) and np.array_equal(np.asarray(fr.fs), fs_c) and np.array_equal(np.asarray(fr.ts_ext)[:m], ts_c)):
         V('returned_array_aliases_axes', 'writing into the arrays returned by ts_ext / get_frequency changed the frame\'s own ts / fs / ts_ext')
     # nearest channel: offsets strictly inside / outside the half-channel (ties are not decided, rule 1)
     for delta, shift in ((0.25, 0), (-0.25, 0), (0.49, 0), (-0.49, 0), (0.51, 1), (-0.51, -1)):
